@@ -270,7 +270,7 @@ POW_PROOF = '''
   · have h0' : (e == 0) = false := by simpa using h0
     simp only [h0, h0', decide_false, Bool.false_eq_true, if_false]
     rw [whileFuel_congr 128 _ (fun s => decide ((s.2 &&& 1) = 0)) _ (fun s => (s.1.squared, s.2 >>> 1))
-          (by rintro ⟨b, n⟩; rfl) (by rintro ⟨b, n⟩; rfl), powStrip_while]
+          (by rintro ⟨b, n⟩; first | rfl | simp only [and1_ne1, and1_ne0, decide_eq_comm (1 : Nat) _]) (by rintro ⟨b, n⟩; rfl), powStrip_while]
     generalize Fq12.powStrip 128 x e = st
     obtain ⟨b, n⟩ := st
     by_cases h1 : n = 1
@@ -279,7 +279,7 @@ POW_PROOF = '''
       simp only [h1, h1', decide_false, Bool.false_eq_true, if_false]
       rw [whileFuel_congr 128 _ (fun s => decide (s.2.2 > 1)) _
             (fun s => (if decide (((s.2.2 >>> 1) &&& 1) = 1) then s.1 * s.2.1.squared else s.1, s.2.1.squared, s.2.2 >>> 1))
-            (by rintro ⟨a, b, n⟩; rfl) (by rintro ⟨a, b, n⟩; rfl)]
+            (by rintro ⟨a, b, n⟩; first | rfl | simp only [and1_ne1, and1_ne0, decide_eq_comm (1 : Nat) _]) (by rintro ⟨a, b, n⟩; first | rfl | simp only [and1_ne1, and1_ne0, decide_eq_comm (1 : Nat) _])]
       exact powAcc_while 128 b b n'''
 
 SPECIAL = {
